@@ -157,6 +157,20 @@ func (w *World) ledgerProbes(full bool, withIGP bool) []Probe {
 			out = append(out, mk(orbEnc[0], memoM{fmt.Sprintf("%s/fee%d", f, fi), Memo(f, fees), &f, fees}, "channel-0", denomBIG, amt, false))
 		}
 	}
+	// (3b) Hyperlane attribute dimension on the ordinary mailbox (its hooks charge nothing): a positive max_fee in the
+	// transferred denomination (equal to / just below the amount, small), in another denomination, gas limits, a custom
+	// hook with metadata — none of them may keep any part of the coin on the orbiter account or change what is locked
+	for _, v := range []struct{ tag, maxFee, gas string; hook []byte; meta string }{
+		{"maxfee=7uusdc", "7uusdc", "0", nil, ""}, {"maxfee=3999uusdc", "3999uusdc", "0", nil, ""}, {"maxfee=4000uusdc", "4000uusdc", "0", nil, ""},
+		{"maxfee=7uother", "7uother", "0", nil, ""}, {"gas=1", "0uusdc", "1", nil, ""}, {"gas=200000,maxfee=9uusdc", "9uusdc", "200000", nil, ""},
+		{"hook=H0,meta", "3uusdc", "5", w.HookH0.Bytes(), "0xabcd"}, {"meta-without-hook", "0uusdc", "0", nil, "0xabcd"}, {"no-maxfee-no-gas", "", "", nil, ""},
+	} {
+		f := w.FwdHyp(1)
+		f.MaxFee, f.GasLimit, f.Hook, f.HookMeta, f.Tag = v.maxFee, v.gas, v.hook, v.meta, "hyp(1,"+v.tag+")"
+		for fi, fees := range w.feeMenu()[:2] {
+			out = append(out, mk(orbEnc[0], memoM{fmt.Sprintf("%s/fee%d", f, fi), Memo(f, fees), &f, fees}, "channel-0", denomUSDC, "4000", false))
+		}
+	}
 	// (4) Hyperlane token on a mailbox whose required hook charges gas (igp configuration)
 	if withIGP {
 		for _, mf := range []string{"0uusdc", "5uusdc", "500uigp"} {
